@@ -92,6 +92,11 @@ def kernel_facets(run, fam, ax):
         if u.shape != (3,) or L.shape != (3, 3):
             run.exact(f"{ptag}/shapes", fn, False, f"{u.shape} {L.shape}")
             continue
+        nonfin = [v for v in list(u.flat) + list(L.flat) if isinstance(v, (float, np.floating)) and not np.isfinite(v)]
+        if nonfin:
+            # a path that is feasible inside the domain returns NaN/inf constants: refuted unless the path is infeasible there
+            run.prove(f"{ptag}/velocity and gradient are finite inside the domain", fn, H, z3.BoolVal(False), replay=rp, detail=f"returns the non-finite constant {nonfin[0]} on this path")
+            continue
         tr = 0
         names = {a: lab[0], b: lab[1]}
         for i in range(3):
@@ -154,6 +159,8 @@ def nat_kernel(flow, axes, x, params):
             J[:, j] = (np.asarray(u(np.nan, x + e)) - np.asarray(u(np.nan, x - e))) / (2 * h)
     except Exception as ex:
         return dict(ok=False, what=f"raised {type(ex).__name__}: {ex}")
+    if np.isfinite(J).all() and not np.isfinite(Lx).all():
+        return dict(ok=False, what=f"gradient is not finite at {x.tolist()} although the velocity is differentiable there", L=str(Lx.tolist()), J=J.tolist())
     sc = max(1e-30, np.abs(J).max(), np.abs(Lx).max())
     bad = np.abs(Lx - J) > 1e-5 * sc
     msgs = []
